@@ -269,7 +269,7 @@ class WAUROC(_Win):
     def model(self, v):
         self._model = v
     granularity = "sample"
-    zero_weights = False
+    zero_weights = True           # compute() evaluates the whole buffer since 41268ab: explicit zero weights are ordinary samples of weight 0
     scalar_weight = False
     none_weight = True
     wdtype = torch.float32
